@@ -123,8 +123,8 @@ func tileSizesFor(dim int) []int {
 }
 
 func runC19Geo(c *Ctx) {
-	c.R.Rule = "j2kgeo tiles: every W in 1..40 with every tile width 1..W (paired with every H/tile height the same way), random sizes to 5000; " +
-		"tile extraction + AssembleTile on random images to 40x40 (96 thorough); non-trivial = more than one tile"
+	c.R.Rule = "j2kgeo tiles: every W in 1..40 with every tile width 1..W (paired with every H/tile height the same way), random sizes to 5000 (partition painted up to 2^18 / 2^22 pixels); " +
+		"tile extraction + AssembleTile on random images to 40x40 (64 thorough); non-trivial = more than one tile"
 	rng := c.Rng.Fork()
 	var cases []tileCase
 	// all 1-D combinations on both axes: (W,TW) enumerated, (H,TH) enumerated with a different phase
@@ -139,7 +139,7 @@ func runC19Geo(c *Ctx) {
 		b := ps[(i*7+13)%len(ps)]
 		cases = append(cases, tileCase{a.d, b.d, a.t, b.t})
 	}
-	nr := c.N(600, 20000)
+	nr := c.N(600, 6000)
 	for i := 0; i < nr; i++ {
 		k := tileCase{W: rng.Range(1, 5000), H: rng.Range(1, 5000)}
 		pick := func(dim int) int {
@@ -204,7 +204,7 @@ func runC19Geo(c *Ctx) {
 				c.R.Fail("oracle", "geo_tiles_partition", "tiles:empty", fmt.Sprintf("empty tile %v", r), k)
 			}
 		}
-		if k.W*k.H <= 1<<18 || c.Thor {
+		if k.W*k.H <= 1<<18 || (c.Thor && k.W*k.H <= 1<<22) {
 			if bad := paint(k.W, k.H, rects); bad != "" {
 				c.R.Fail("oracle", "geo_tiles_partition", "tiles:partition", bad, k)
 			}
@@ -212,7 +212,7 @@ func runC19Geo(c *Ctx) {
 	})
 
 	// extraction + assembly
-	n := c.N(700, 6000)
+	n := c.N(700, 3000)
 	type rtCase struct {
 		K    tileCase
 		Data []int32
@@ -220,7 +220,7 @@ func runC19Geo(c *Ctx) {
 	rts := make([]rtCase, n)
 	maxd := 40
 	if c.Thor {
-		maxd = 96
+		maxd = 64
 	}
 	for i := range rts {
 		k := tileCase{W: rng.Range(1, maxd), H: rng.Range(1, maxd)}
